@@ -259,10 +259,10 @@ func checkC13(tier string) int {
 			}
 			if i%8 == 5 {
 				// the schedule is over from the first block (the only year is inside its close window) and the
-				// rewards pool holds less than three blocks of the burnout rate
+				// rewards pool holds less than one block of the burnout rate
 				p.YearShares = []string{"1000000000000000000000"}
 				p.YearCloseWindow = 3600 * 24 * 400
-				p.RewardPoolOLT = "12000000000000000000"
+				p.RewardPoolOLT = "3000000000000000000"
 			}
 			return p
 		},
